@@ -29,7 +29,7 @@ DIRTY_METHODS = {"insert", "replace", "append", "prepend", "temporaryExtend"}
 
 
 def T(mod, n):
-    return "".join(mod.text(n).split())
+    return mod.code(n)
 
 
 def run(rep, tier):
